@@ -158,7 +158,14 @@ func (x *exec) checkMemRows(where string, rows []MemRow, exp []ExpRow, complete 
 		}
 	}
 	if complete && (start != 0 || len(data) != len(exp)) {
-		x.fail("C32", "memview", "memview/"+where+"/rows-missing", "the whole view shows %d data rows starting at expected row %d, %d rows expected", len(data), start, len(exp))
+		var sb, eb []string
+		for _, r := range data {
+			sb = append(sb, fmt.Sprintf("%#x", r.Begin))
+		}
+		for _, e := range exp {
+			eb = append(eb, fmt.Sprintf("%#x", e.Begin))
+		}
+		x.fail("C32", "memview", "memview/"+where+"/rows-missing", "the whole view shows %d data rows starting at expected row %d, %d rows expected; shown windows %v, windows overlapping stored memory %v", len(data), start, len(exp), sb, eb)
 	}
 }
 
